@@ -72,6 +72,73 @@ func (st *pstate) concInt(v value) value {
 	return u
 }
 
+// indexSplit: a symbolic index into a table of concrete scalars (a lookup table such as utf8's first[256]) is
+// case-split by the VALUE found there: the indices holding the same value form one case, whose condition is a
+// disjunction of index ranges; the index returned is a representative of the chosen case (the table is only read -
+// tables of other packages are frozen, a store through the address would abort the path anyway).  Anything else
+// falls back to concInt (unique value or unsupported).
+func (st *pstate) indexSplit(x value, idx value) value {
+	si, ok := idx.(symInt)
+	if !ok {
+		return idx
+	}
+	var elems []value
+	switch t := x.(type) {
+	case []value:
+		elems = t
+	case array:
+		elems = t
+	case *value:
+		if t != nil {
+			if a, ok := (*t).(array); ok {
+				elems = a
+			}
+		}
+	}
+	if len(elems) < 2 || len(elems) > 1024 {
+		return st.concInt(idx)
+	}
+	type run struct{ lo, hi int }
+	groups := map[interface{}][]run{}
+	var order []interface{}
+	for i, e := range elems {
+		switch e.(type) {
+		case uint8, int8, uint16, int16, uint32, int32, uint64, int64, int, uint, bool:
+		default:
+			return st.concInt(idx)
+		}
+		r := groups[e]
+		if len(r) > 0 && r[len(r)-1].hi == i-1 {
+			r[len(r)-1].hi = i
+		} else {
+			if len(r) == 0 {
+				order = append(order, e)
+			}
+			r = append(r, run{i, i})
+		}
+		groups[e] = r
+	}
+	if len(order) > 24 {
+		return st.concInt(idx)
+	}
+	bits := kindBits(si.k)
+	lit := func(n int) string { return fmt.Sprintf("(_ bv%d %d)", n, bits) }
+	for _, e := range order {
+		var alts []string
+		for _, r := range groups[e] {
+			if r.lo == r.hi {
+				alts = append(alts, "(= "+si.t+" "+lit(r.lo)+")")
+			} else {
+				alts = append(alts, "(and (bvuge "+si.t+" "+lit(r.lo)+") (bvule "+si.t+" "+lit(r.hi)+"))")
+			}
+		}
+		if st.branch(tOr(alts...)) {
+			return int64(groups[e][0].lo)
+		}
+	}
+	panic(targetPanic{fmt.Errorf("runtime error: index out of range [symbolic] with length %d", len(elems))})
+}
+
 func (st *pstate) where() string {
 	return st.panicSite
 }
